@@ -133,7 +133,7 @@ class DiskIf:
 class Node:
     """One real LocalPeer wired to fake sockets, a real BlockStore on a scratch file and a virtual clock."""
 
-    def __init__(self, coinstate, genesis, clock=None, real_store=True, port=2412, nonce=None, name="n", on_load_peers=None):
+    def __init__(self, coinstate, genesis, clock=None, real_store=True, port=2412, nonce=None, name="n", on_load_peers=None, store_path=None):
         sk.setup()
         import skepticoin.networking.remote_peer as rp
         import skepticoin.networking.local_peer as lp
@@ -147,8 +147,11 @@ class Node:
         logging.getLogger("skepticoin.networking").setLevel(logging.CRITICAL)
         self.store = None
         if real_store:
-            d = tempfile.mkdtemp(prefix="node_", dir=sk.scratch())
-            self.store_path = os.path.join(d, "chain.db")
+            if store_path is None:
+                d = tempfile.mkdtemp(prefix="node_", dir=sk.scratch())
+                self.store_path = os.path.join(d, "chain.db")
+            else:
+                self.store_path = store_path          # a restart: the file the previous run of the node left behind
             orig = bs.genesis_block_data
             bs.genesis_block_data = genesis.serialize()
             try:
@@ -200,6 +203,27 @@ class Node:
                 self.escaped.append(("thread.start", repr(e)))
             finally:
                 _th.Thread.start = orig_start
+
+    @classmethod
+    def restarted(cls, old, genesis, clock):
+        """The node process ends (whatever is only in memory is gone: write buffer, pending pool, connections) and the program is started
+        again on the same chain.db: the real read_chain_from_disk, then the real NetworkingThread start-up."""
+        import skepticoin.blockstore as bs
+        import skepticoin.networking.local_peer      # noqa: F401
+        import skepticoin.scripts.utils as su
+        path = old.store_path
+        old.close()
+        with contextlib.redirect_stdout(io.StringIO()):
+            s2 = bs.BlockStore(path)
+        prev = bs.DefaultBlockStore.instance
+        bs.DefaultBlockStore.instance = s2
+        try:
+            with contextlib.redirect_stdout(io.StringIO()):
+                cs = su.read_chain_from_disk()
+        finally:
+            bs.DefaultBlockStore.instance = prev
+            s2.close()
+        return cls(cs, genesis, clock=clock, store_path=path, port=old.local.port, name=old.name)
 
     def use_store(self):
         if self.store is not None:
